@@ -33,6 +33,16 @@ CHECKS = {
          "Round trip through all write-path/read-path pairs (incl. overwrite of shorter/longer content), substring secrecy of the raw bytes, nonce freshness, rejection under every other (secret,salt) of the pool, and for the stored bytes of each plaintext EVERY truncation length 0..N-1 and EVERY single-byte corruption (all 255 values for short files) must be answered with an error - never data, never a panic - on a fresh base each time; name-space operations are compared step by step with the tree model through the encrypted filespace.",
          "crypto/rand.Reader replaced by a deterministic non-repeating stream; cryptographic strength out of scope; long files use strided interior positions (stated in evidence).",
          "DESIGN.md 3/C05"),
+ "C06": ("model_checking",
+         "exhaustive enumeration of bounded cache-operation histories (depth 3/4, 27-op alphabet incl. intermediate Commits) over 4 initial remotes on the real fscache, compared with a fold over the tree reference model; exhaustive journal map-order choices and exhaustive failing-remote-call positions during Commit",
+         "Every history is replayed on a fresh cache over a fresh remote; the remote must be untouched before Commit, equal to the model fold after Commit and after a second Commit; for short histories every iteration order of the four journal maps (explorer choice) and every single failing remote call during Commit (then a fault-free Commit) are explored. Three design defects of the cache are recorded as known findings with root-cause matchers; four were repaired.",
+         "Expected remote = tree-model fold of the operations the cache reported successful; histories containing an operation whose outcome is unspecified at that point are skipped (counted).",
+         "DESIGN.md 3/C06"),
+ "C07": ("model_checking",
+         "same bounded-history enumeration as C06; after every history every read-type operation on an 18-path pool (cache and child views) is compared with the overlay reference model",
+         "For every history (every prefix is a history of its own) all of IsExist/IsFile/IsDir/ReadFile/Reader/ReadDir/Lstat on 18 overlapping paths, on the cache and on child views of it, must answer like the overlay model (remote + pending successful operations). The cache's missing tombstones are recorded as known findings by root cause (trigger must be present in the history for the very path), everything else is reported.",
+         "Overlay model as in C06; the root-cause matchers are predicates over the history, not over the symptom alone.",
+         "DESIGN.md 3/C07"),
  "C08": ("model_checking",
          "stateless preemption-bounded DFS over all schedules of the real fsloop/jobsync code under a controlled scheduler (vsched), fair-yield rule, per-program bounds",
          "Every schedule (up to the stated preemption bound, 2-3 for small programs) of the real producer/consumer/completion goroutines is executed for a family of trees, filters, worker limits, channel capacities and injected failures; oracle = multiset of callback arguments, concurrency high-water mark, callbacks after Wait, error list. Found the lost-item window on the pinned tree (fixed).",
